@@ -8,7 +8,7 @@
 //!   wc=<n> initial write credit of every stream h3 writes on (default unlimited)
 //! peer ops: o<sid> open; s<sid>:<hex> deliver chunk; f<sid> FIN; r<sid>:<code> RESET;
 //!   x<sid>:<code> STOP_SENDING; C<code> application close; T timeout;
-//!   gu<n> / gb<n> grant stream credit; gw<sid>:<n> grant write credit
+//!   gu<n> / gb<n> grant stream credit; gw<sid>:<n> grant write credit; cw<sid>:<n> set it
 //! api ops: <task>.<cmd>  (tasks: conn, drv, snd, q<sid>, q<sid>s)
 #![allow(dead_code)]
 use crate::exec::*;
@@ -910,6 +910,13 @@ impl Run {
                 }
                 None => false,
             },
+            // cw<sid>:<n> set the write credit of a stream to exactly n
+            Some(b'c') if op.starts_with("cw") => {
+                let Some((id, k)) = op[2..].split_once(':') else { return false };
+                let (Some(id), Some(k)) = (num(id), num(k)) else { return false };
+                n.set_write_credit(id, k as usize);
+                true
+            }
             Some(b'C') => num(&op[1..]).map(|c| n.fail(ConnectionErrorIncoming::ApplicationClose { error_code: c })).is_some(),
             Some(b'T') if op == "T" => {
                 n.fail(ConnectionErrorIncoming::Timeout);
